@@ -6,6 +6,7 @@ COG = 'photutils/profiles/curve_of_growth.py::CurveOfGrowth'
 
 def register(reg):
     register_radial(reg)
+    register_photometry(reg)
     reg.record('CurveOfGrowth', {'radius': ('seq', 'real'), 'profile': ('seq', 'real')})
 
     # retained prefix = the maximal strictly increasing prefix of the profile, so that the two
@@ -104,3 +105,85 @@ def register_radial(reg):
                   '== self._fluxerr[k], (0, len(result)))')],
         mutants=[('return self._fluxerr / self.area', 'return self._fluxerr / self._flux')],
     ))
+
+
+def register_photometry(reg):
+    """CurveOfGrowth.profile "at each radius equals the circular-aperture sum of the unmasked data
+    for that radius and method": the nested apertures are circles of the given radii about the
+    profile centre (None for a non-positive radius), and entry k of the photometry is what
+    aperture k's do_photometry / area_overlap return for *this* profile's data, error, mask,
+    method and subpixels (0 for a non-positive radius).  apsum_ / aperr_ / aparea_ stand for
+    those two methods (their own meaning is the business of the C02 contracts); id_() is the
+    identity of an array object, code_() a distinct integer per string."""
+    PB = 'photutils/profiles/core.py::ProfileBase'
+    reg.record('CircularAperture', {'x': 'real', 'y': 'real', 'r': 'posreal'})
+    reg.add(Contract(
+        target='photutils/aperture/circle.py::CircularAperture.__init__', props=['C19'], kind='method',
+        params={'self': 'CircularAperture', 'positions': ('tuple', 'real', 'real'), 'r': 'real'},
+        requires=['r > 0'],
+        ensures=[('stores', 'self.x == positions[0] and self.y == positions[1] and self.r == r')],
+        returns='CircularAperture', assumed=True,
+        note='CircularAperture(xy, r) is the circle of radius r about xy (constructor, assumed)',
+    ))
+    args = ('self.x, self.y, self.r, id_(data), id_(error), id_(mask), code_(method), subpixels')
+    reg.add(Contract(
+        target='photutils/aperture/circle.py::CircularAperture.do_photometry', props=['C19'], kind='method',
+        params={'self': 'CircularAperture', 'data': ('arr', 2, 'real'), 'error': ('arr', 2, 'real'),
+                'mask': ('arr', 2, 'bool'), 'method': 'str', 'subpixels': 'int'},
+        ensures=[('names-the-sums', f'result[0][0] == apsum_({args}) and result[1][0] == aperr_({args})')],
+        returns=('tuple', ('tuple', 'real'), ('tuple', 'real')), assumed=True,
+        note='apsum_/aperr_ name what CircularAperture.do_photometry returns for these arguments',
+    ))
+    reg.add(Contract(
+        target='photutils/aperture/circle.py::CircularAperture.area_overlap', props=['C19'], kind='method',
+        params={'self': 'CircularAperture', 'data': ('arr', 2, 'real'), 'mask': ('arr', 2, 'bool'),
+                'method': 'str', 'subpixels': 'int'},
+        ensures=[('names-the-area', 'result == aparea_(self.x, self.y, self.r, id_(data), '
+                                    'id_(mask), code_(method), subpixels)')],
+        returns='real', assumed=True,
+        note='aparea_ names what CircularAperture.area_overlap returns for these arguments',
+    ))
+    reg.record('ProfileApertures', {'radii': ('seq', 'real'), 'xycen': ('tuple', 'real', 'real')})
+    reg.add(Contract(
+        target=f'{PB}._circular_apertures', props=['C19'], kind='property',
+        params={'self': 'ProfileApertures'},
+        ensures=[('one-per-radius', 'len(result) == len(self.radii)'),
+                 ('none-iff-radius-not-positive',
+                  'forall(lambda k: iff(result[k] is None, self.radii[k] <= 0), (0, len(result)))'),
+                 ('circle-of-that-radius-about-the-centre',
+                  'forall(lambda k: implies(self.radii[k] > 0, result[k].r == self.radii[k] and '
+                  'result[k].x == self.xycen[0] and result[k].y == self.xycen[1]), '
+                  '(0, len(result)))')],
+        mutants=[('if radius <= 0.0:', 'if radius < 0.0:'),
+                 ('CircularAperture(self.xycen, radius)', 'CircularAperture(self.xycen, radius + 1)')],
+    ))
+    for meth in ('exact', 'center', 'subpixel'):
+        reg.record('ProfilePhot@' + meth, {
+            '_circular_apertures': ('seq', ('opt', 'CircularAperture')),
+            'data': ('arr', 2, 'real'), 'error': ('arr', 2, 'real'), 'mask': ('arr', 2, 'bool'),
+            'method': ('const', meth), 'subpixels': 'pos', 'unit': None})
+        a = 'self._circular_apertures[k]'
+        full = (f'{a}.x, {a}.y, {a}.r, id_(self.data), id_(self.error), id_(self.mask), '
+                f'code_(self.method), self.subpixels')
+        reg.add(Contract(
+            target=f'{PB}._photometry', props=['C19'], kind='property', tag=meth,
+            params={'self': 'ProfilePhot@' + meth},
+            ensures=[
+                ('one-entry-per-aperture',
+                 'len(result[0]) == len(self._circular_apertures) and '
+                 'len(result[1]) == len(self._circular_apertures) and '
+                 'len(result[2]) == len(self._circular_apertures)'),
+                ('entry-k-is-aperture-k-on-this-profiles-inputs',
+                 f'forall(lambda k: result[0][k] == ite({a} is None, 0, apsum_({full})) and '
+                 f'result[1][k] == ite({a} is None, 0, aperr_({full})) and '
+                 f'result[2][k] == ite({a} is None, 0, aparea_({a}.x, {a}.y, {a}.r, '
+                 'id_(self.data), id_(self.mask), code_(self.method), self.subpixels)), '
+                 '(0, len(self._circular_apertures)))'),
+            ],
+            mutants=[('method=self.method, subpixels=self.subpixels)\n                area',
+                      'method=self.method)\n                area'),
+                     ('area = aperture.area_overlap(self.data, mask=self.mask,',
+                      'area = aperture.area_overlap(self.data, mask=None,'),
+                     ('flux, fluxerr = [0.0], [0.0]', 'flux, fluxerr = [1.0], [0.0]')]
+            if meth == 'subpixel' else [],
+        ))
